@@ -7,6 +7,8 @@ import (
 	"strings"
 	"time"
 
+	"github.com/ethereum/go-ethereum/common"
+	"github.com/holiman/uint256"
 	"verif/fw"
 	"verif/gen"
 	"verif/mc"
@@ -68,6 +70,9 @@ func c03Exec(cs *world.Case, ans int, label string) (sig, detail string, failed 
 		return "panic:" + label + ":" + normPanic(p), "entry point panicked: " + p + "\n" + cs.Note, true
 	}
 	env.DB.ReadLimit = 0
+	if q := c03Queries(env); q != "" {
+		return "panic:query:" + normPanic(q), "a recorder query panicked after the execution: " + q + "\n" + cs.Note, err != nil
+	}
 	if d := bookkeepingClosed(env, probe, cs.Fork); d != "" {
 		return "bookkeeping:" + label, d + "\n" + cs.Note, err != nil
 	}
@@ -100,6 +105,44 @@ func c03ForEach(w *fw.W, fn func(family string, cs *world.Case, ans int, label s
 		}
 		fn("PC", pc.Case, pc.HostAns, fmt.Sprintf("%#x:%s", pc.Target, pc.Reach.Kind), c.Choices())
 	}, stop)
+	// (d) sequences of journal instructions on one recorder (registrations, journals, nested registrations in any order)
+	steps := c03SeqSteps()
+	L := 3
+	if th {
+		L = 4
+	}
+	for _, f := range []world.Fork{world.Frontier, world.Shanghai} {
+		f := f
+		gen.ForEachSeq(len(steps), L, func(seq []int) {
+			if len(seq) == 0 || !w.Mine() || w.Expired() {
+				return
+			}
+			for _, static := range []bool{false, true} {
+				prog := &gen.JProgram{}
+				for _, nm := range []struct {
+					off uint64
+					s   string
+				}{{0x200, "m"}, {0x240, "x"}, {0x280, "y"}, {0x2c0, "k"}} {
+					prog.Mem = append(prog.Mem, gen.StrWords(nm.off, []byte(nm.s))...)
+				}
+				var names []string
+				for _, i := range seq {
+					prog.Steps = append(prog.Steps, steps[i].Step)
+					names = append(names, steps[i].Name)
+				}
+				st := map[common.Hash]common.Hash{{}: gen.Pattern, common.HexToHash("0x2"): gen.Pattern}
+				for k, v := range gen.EncodeString(uint256.NewInt(1), []byte("hello")) {
+					st[k] = v
+				}
+				for k, v := range gen.EncodeString(uint256.NewInt(3), gen.PatternBytes(40)) {
+					st[k] = v
+				}
+				cs := gen.JCase(f, prog.Code(), st, static, 300000)
+				cs.Note = fmt.Sprintf("JSEQ static=%v [%s]", static, strings.Join(names, " ; "))
+				fn("JSEQ", cs, 0, "journal_sequence", nil)
+			}
+		})
+	}
 	// (a) every byte string of length <= 2 as code, including the Artela bytes
 	for _, f := range jmForks {
 		for n := 0; n < 65536+256+1; n++ {
@@ -126,6 +169,31 @@ func c03ForEach(w *fw.W, fn func(family string, cs *world.Case, ans int, label s
 				fn("BYTES", cs, 0, "bytes", nil)
 			}
 		}
+	}
+}
+
+type c03Step struct {
+	Name string
+	Step gen.JStep
+}
+
+// c03SeqSteps is the alphabet of the journal-sequence family.
+func c03SeqSteps() []c03Step {
+	A, B := u256(gen.TypeA), u256(gen.TypeB)
+	s := func(op byte, operands ...*uint256.Int) gen.JStep { return gen.JStep{Op: op, Operands: operands} }
+	return []c03Step{
+		{"reg ref m@1", s(0xe0, n(0x200), n(1), B)},
+		{"reg val x@0/0", s(0xe1, n(0x240), n(0), n(0), A)},
+		{"reg val y@0/4", s(0xe1, n(0x280), n(0), n(4), A)},
+		{"reg m[k]@2 (ref key)", s(0xe2, n(1), n(2), n(0x2c0), n(0), A, B)},
+		{"reg m[7]@2 (val key)", s(0xe4, n(1), n(2), n(7), n(0), A, B)},
+		{"reg m[k]@3 ref (ref key)", s(0xe3, n(1), n(3), n(0x2c0), A, B)},
+		{"reg m[7]@3 ref (val key)", s(0xe5, n(1), n(3), n(7), A, B)},
+		{"reg under value node 2", s(0xe2, n(2), n(5), n(0x2c0), n(0), A, A)},
+		{"journal x", s(0xe6, n(0), n(0), n(32), A)},
+		{"journal @2", s(0xe6, n(2), n(0), n(32), A)},
+		{"journal ref m", s(0xe7, n(1), B)},
+		{"journal ref @3", s(0xe7, n(3), A)},
 	}
 }
 
@@ -213,3 +281,37 @@ func init() {
 // c03ReadSentinel: an execution of one of the tiny generated programs that performs more state reads than this is
 // cut off and reported as unbounded work (the largest bounded case, a 2^20-byte string, needs 32768 reads).
 const c03ReadSentinel = 100000
+
+// c03Queries exercises the recorder's public query API after an execution; returns the panic text if one panics.
+func c03Queries(env *world.AEnv) (p string) {
+	defer func() {
+		if r := recover(); r != nil {
+			p = fmt.Sprint(r)
+		}
+	}()
+	sc := env.EVM.Tracer().StateChanges()
+	for _, name := range []string{"m", "x", "y", "k"} {
+		if k := sc.FindKeyIndices(gen.T, name); k != nil {
+			k.Children()
+			k.ChildrenIndices()
+			k.Changes()
+			for _, ix := range k.ChildrenIndices() {
+				sc.Variable(gen.T, name, ix)
+				sc.IndicesOfChanges(gen.T, name, ix)
+			}
+		}
+		sc.IndicesOfChanges(gen.T, name)
+		sc.Variable(gen.T, name)
+	}
+	for _, slot := range []uint64{0, 1, 2, 3} {
+		sc.Slot(gen.T, uint256.NewInt(slot), nil, gen.TypeA)
+		sc.Slot(gen.T, uint256.NewInt(slot), uint256.NewInt(40), gen.TypeB)
+	}
+	sc.Balance(gen.T)
+	ct := env.EVM.Tracer().CallTree()
+	ct.Root()
+	ct.ChildrenOf(0)
+	ct.ParentOf(0)
+	ct.FindCall(1 << 40)
+	return ""
+}
